@@ -181,12 +181,6 @@ theorem answer_held_verifies (sd : SlotData) (b : Bid) (blk : Block) (hs : SInv 
 
 /-! ### a peer that holds the leader's block answers with `honestResp` -/
 
-/-- the request lies inside the block `B` -/
-def InBlock (B : HBlock) : Req → Prop
-  | .last _ => True
-  | .root _ i => i < B.n
-  | .shred _ i j => i < B.n ∧ j < TOTAL_SHREDS
-
 /-- `sd` holds the complete block `B` of a correct leader (obtained through dissemination or repair) -/
 def Holds (B : HBlock) (cap : Nat) (sd : SlotData) : Prop :=
   SInv sd ∧ ∃ bd, blockData sd B.block.hash = some bd ∧ Good B cap bd ∧ bd.completed.isSome
@@ -245,5 +239,78 @@ theorem holder_answers (B : HBlock) (cap : Nat) (sd : SlotData) (hh : Holds B ca
       simp only [Req.bid] at hb
       obtain ⟨_, _, h3⟩ := hq i hin.1
       simp only [answer, hb, h3 j hin.2, honestResp]
+
+
+/-! ### fairness does not depend on how the correct responder is presented -/
+
+theorem served_congr (env : Nat → Content) (cap : Nat) (ρ ρ' : Req → Resp) (r : Req) (h : ρ r = ρ' r)
+    (evs : List Ev) (σ : Sys) : Served env cap ρ r σ evs → Served env cap ρ' r σ evs := by
+  induction evs generalizing σ with
+  | nil => exact id
+  | cons e rest ih =>
+    intro hs
+    rcases hs with hs | hs
+    · exact Or.inl (by rw [← h]; exact hs)
+    · exact Or.inr (ih _ hs)
+
+theorem fair_congr (B : HBlock) (env : Nat → Content) (cap : Nat) (hwf : B.WF env cap)
+    (hroots : ∀ i, i < B.n → B.root i ≠ 0) (ρ ρ' : Req → Resp)
+    (hρ : ∀ r, r.bid = bidOf B → InBlock B r → ρ r = ρ' r) (evs : List Ev) (σ : Sys)
+    (hinv : RepInv B cap σ) (hadm : ∀ e ∈ evs, Admissible B e)
+    (hf : Fair env cap ρ (bidOf B) σ evs) : Fair env cap ρ' (bidOf B) σ evs := by
+  induction evs generalizing σ with
+  | nil => exact hf
+  | cons e rest ih =>
+    refine ⟨?_, ih _ (stepEv_repInv B env cap hwf hroots σ e hinv (hadm e List.mem_cons_self)).1
+      (fun x hx => hadm x (List.mem_cons_of_mem _ hx)) hf.2⟩
+    intro r hr hb
+    exact served_congr env cap ρ ρ' r (hρ r hb (inBlock_of_inv B cap σ hinv r hr hb)) _ σ (hf.1 r hr hb)
+
+/-- what a peer with slot data `sd` sends back (`try_build_response(..).unwrap_or(Nack)`) -/
+def respOf (sd : SlotData) (r : Req) : Resp := (answer sd r).getD (.nack r)
+
+/-! ### starting a repair -/
+
+/-- **`repair_block` establishes the invariant**: on a requester that knows nothing about `B` yet (no
+    request, no proven root, no repair spot, block not held), starting the repair of `B` yields a
+    state satisfying `RepInv`. -/
+theorem repInv_begin (B : HBlock) (env : Nat → Content) (cap : Nat) (hn : 0 < B.n) (σ : Sys)
+    (hslot : (storeGet cap σ.store B.slot).dis.slot = B.slot) (hcap : (storeGet cap σ.store B.slot).dis.cap = cap)
+    (hnone : getBlock (storeGet cap σ.store B.slot) B.block.hash = none)
+    (hspot : repGet (storeGet cap σ.store B.slot).rep B.block.hash = none)
+    (hrk : RootsKnown σ.st)
+    (hnoroots : ∀ i, rootGet σ.st.sliceRoots (bidOf B, i) = none)
+    (hnoreq : ∀ r ∈ σ.st.outstanding, r.bid ≠ bidOf B) :
+    RepInv B cap (stepEv env cap σ (.start (bidOf B))).1 := by
+  have hbh : (bidOf B).hash = B.block.hash := rfl
+  have hbs : (bidOf B).slot = B.slot := rfl
+  have hst : (stepEv env cap σ (.start (bidOf B))).1 = ⟨sendRequest σ.st (.last (bidOf B)), σ.store⟩ := by
+    simp only [stepEv, repairBlock, hbh, hbs, hnone, Option.isSome_none, Bool.false_eq_true, if_false]
+  rw [hst]
+  have hsp : spotOf cap B σ.store = BlockData.new cap B.slot := by
+    unfold spotOf; rw [hspot, hslot, hcap]; rfl
+  constructor
+  · intro blk hd hh
+    simp only at hd
+    have : getBlock (storeGet cap σ.store B.slot) B.block.hash = some blk := by
+      simp [getBlock, blockData, hd, hh]
+    rw [hnone] at this; simp at this
+  · simp only; rw [hsp]; exact live_new B cap hn
+  · exact sendRequest_rootsKnown σ.st _ hrk (by intro b i j h; simp at h)
+  · intro i root h
+    simp only [sendRequest_roots] at h
+    rw [hnoroots] at h; simp at h
+  · intro i h
+    simp only [sendRequest_outstanding] at h
+    rcases h with h | h
+    · exact absurd rfl (hnoreq _ h)
+    · simp at h
+  · intro i j h
+    simp only [sendRequest_outstanding] at h
+    rcases h with h | h
+    · exact absurd rfl (hnoreq _ h)
+    · simp at h
+  · right; left
+    exact (sendRequest_outstanding _ _ _).mpr (Or.inr rfl)
 
 end AgModel.Repair
